@@ -57,14 +57,14 @@ func (*engine) ID() string { return "C10" }
 func (*engine) Plan(tier string) int64 {
 	if raceBuild {
 		if tier == "thorough" {
-			return 30000
+			return 150000
 		}
-		return 1500
+		return 5000
 	}
 	if tier == "thorough" {
-		return 400000
+		return 1500000
 	}
-	return 16000
+	return 50000
 }
 
 func (*engine) Describe() simkit.Description {
